@@ -275,6 +275,18 @@ pub fn check_moov(o: &mut Outcome, d: &[u8], tree: &[Node], m: &Movie, ctx: &str
                 if r_ok {
                     if let Some(spsu) = arrays.iter().find(|(b, _)| b & 0x3f == 33).and_then(|(_, u)| u.first()) {
                         if let Some(want) = hevc_sps_front(spsu) {
+                            // general_profile_space .. general_level_idc: the twelve bytes of the SPS's general
+                            // profile_tier_level(), which the record repeats verbatim (14496-15 8.3.3.1.2)
+                            if let Some(ptl) = hevc_general_ptl(spsu) {
+                                if cp[1..13] != ptl[..] {
+                                    let which = if cp[1] != ptl[0] { "profile" } else if cp[12] != ptl[11] { "level" } else if cp[2..6] != ptl[1..5] { "compatibility_flags" } else { "constraint_flags" };
+                                    o.fail(
+                                        "hvcC",
+                                        format!("hvcC.general_ptl_vs_sps.{}.{}", which, ctx),
+                                        format!("hvcC general profile/tier/level bytes {} but the SPS it carries has {}", hex(&cp[1..13], 12), hex(&ptl, 12)),
+                                    );
+                                }
+                            }
                             let got = (cp[16] & 3, cp[17] & 7, cp[18] & 7);
                             if got != (want.0, want.1 & 7, want.2 & 7) {
                                 let how = if got == (1, 0, 0) { "record_says_420_8bit" } else { "other" };
@@ -372,6 +384,26 @@ pub fn check_moov(o: &mut Outcome, d: &[u8], tree: &[Node], m: &Movie, ctx: &str
             o.fail("trex", format!("trex.layout.{}", ctx), format!("trex {:?}", t));
         }
     }
+}
+
+/// The 12 bytes of the general part of profile_tier_level() of an H.265 SPS NAL unit (after removing emulation prevention).
+pub fn hevc_general_ptl(nal: &[u8]) -> Option<[u8; 12]> {
+    let mut rbsp = Vec::new();
+    let mut zeros = 0;
+    for &b in nal.get(2..)? {
+        if zeros >= 2 && b == 3 {
+            zeros = 0;
+            continue;
+        }
+        zeros = if b == 0 { zeros + 1 } else { 0 };
+        rbsp.push(b);
+        if rbsp.len() == 13 {
+            break;
+        }
+    }
+    let mut out = [0u8; 12];
+    out.copy_from_slice(rbsp.get(1..13)?);
+    Some(out)
 }
 
 /// chroma_format_idc, bit_depth_luma_minus8, bit_depth_chroma_minus8 of an H.265 sequence parameter set NAL unit
